@@ -79,3 +79,12 @@ func VerifTxnState(b common.CmdBatcher) (VerifTxnInfo, bool) {
 	}
 	return info, true
 }
+
+// VerifTxnFlag: the cluster-level transaction flag and the node it pinned
+// (chooseNodeWithCmdAndKeys: set by a literal MULTI, cleared by EXEC).
+func VerifTxnFlag(c *Cluster) (bool, string) {
+	if c.transactionNode != nil {
+		return c.transactionEnable, c.transactionNode.address
+	}
+	return c.transactionEnable, ""
+}
